@@ -319,7 +319,7 @@ func runC14(rc *RunCtx) {
 	nsyn := 2 + T.Choose("syn.lists", 4)
 	for k := 0; k < nsyn; k++ {
 		ps := ww.synthProofs()
-		url := []string{"http://A", "https://mint.example.com/path?x=1&y=~", "http://münt.example/ü"}[T.Choose("syn.url", 3)]
+		url := []string{"http://A", "https://mint.example.com/path?x=1&y=~", "http://münt.example/ü", "https://mint.example.com/", "http://a//", "HTTP://Mint.Example.COM:3338/Path/"}[T.Choose("syn.url", 6)]
 		if len(ps) == 0 {
 			// a token without proofs: building may be refused, but nothing may panic
 			ww.guarded("NewToken(empty)", "", func() { MakeToken(ps, url, false, false); MakeToken(ps, url, true, false) })
